@@ -205,14 +205,23 @@ def _do_inline(fj, b, i, e, call, hj):
             a = a["a"][0]
         return a
 
-    def fresh_copy(n):
+    nmap = {}                   # node ids of the helper -> ids in this inlined instance: the CFG lists a sub-expression
+                                # and the expression containing it with the same id, and the copies must keep that
+
+    def fresh_copy(n, tag=None):
         if isinstance(n, list):
-            return [fresh_copy(v) for v in n]
+            return [fresh_copy(v, tag) for v in n]
         if not isinstance(n, dict) or "k" not in n:
             return n
-        out = {k: fresh_copy(v) if k in ("a", "init", "cond", "callee", "decls") else v for k, v in n.items()}
+        out = {k: fresh_copy(v, tag) if k in ("a", "init", "cond", "callee", "decls") else v for k, v in n.items()}
         if "n" in out:
-            out["n"] = _fresh_n()
+            if tag is None:
+                out["n"] = _fresh_n()
+            else:
+                key = ("arg", tag, out["n"])
+                if key not in nmap:
+                    nmap[key] = _fresh_n()
+                out["n"] = nmap[key]
         return out
 
     def ren(n):
@@ -222,7 +231,7 @@ def _do_inline(fj, b, i, e, call, hj):
             return n
         k0 = n.get("k")
         if k0 == "Ref" and n["ref"].get("id") in submap:
-            c_ = fresh_copy(submap[n["ref"]["id"]])
+            c_ = fresh_copy(submap[n["ref"]["id"]], n.get("n"))
             return c_
         if k0 == "Mem" and n.get("arrow") and isinstance(strip(n["a"][0]), dict) and strip(n["a"][0]).get("k") == "Ref" \
                 and strip(n["a"][0])["ref"].get("id") in submap:
@@ -230,21 +239,25 @@ def _do_inline(fj, b, i, e, call, hj):
             if arg.get("k") == "Un" and arg.get("op") == "&":
                 m = {kk: vv for kk, vv in n.items()}
                 m["arrow"] = False
-                m["a"] = [fresh_copy(arg["a"][0])]
-                m["n"] = _fresh_n()
+                m["a"] = [fresh_copy(arg["a"][0], strip(n["a"][0]).get("n"))]
+                if n.get("n") not in nmap:
+                    nmap[n.get("n")] = _fresh_n()
+                m["n"] = nmap[n.get("n")]
                 return m
         if k0 == "Un" and n.get("op") == "*" and isinstance(strip(n["a"][0]), dict) and strip(n["a"][0]).get("k") == "Ref" \
                 and strip(n["a"][0])["ref"].get("id") in submap:
             arg = strip(submap[strip(n["a"][0])["ref"]["id"]])
             if arg.get("k") == "Un" and arg.get("op") == "&":
-                c_ = fresh_copy(arg["a"][0])
+                c_ = fresh_copy(arg["a"][0], strip(n["a"][0]).get("n"))
                 return c_
         out = {}
         for k, v in n.items():
             if k == "ref" and isinstance(v, dict) and v.get("id") in refmap:
                 out[k] = refmap[v["id"]]
             elif k == "n" and "k" in n:
-                out[k] = _fresh_n()
+                if v not in nmap:
+                    nmap[v] = _fresh_n()
+                out[k] = nmap[v]
             elif k in ("a", "init", "cond", "callee", "decls", "elems", "term"):
                 out[k] = ren(v)
             else:
